@@ -100,21 +100,33 @@ class C10(Check):
 
     def gen(self, rng: random.Random, tier: str, index: int) -> dict:
         events = []
-        cfg = gen.network_case(rng, nsteps=rng.randrange(2, 6), coarse=True, placed_p=0.7)
+        sp = rng.random() < 0.45
+        cfg = gen.network_case(rng, nsteps=rng.randrange(2, 6), coarse=True, placed_p=0.7, model="special_perturbations" if sp else "two_body", cluster_p=0.15)
+        if sp and rng.random() < 0.7:
+            cfg["perturbations"]["solar_radiation_pressure"] = True
+        if rng.random() < 0.7:
+            # agents that differ physically (the perturbed dynamics use each agent's own area-to-mass ratio and reflectivity)
+            seen = {}
+            for e in cfg["engines"]:
+                for a in e["targets"] + [s for s in e["sensors"] if s["platform"]["type"] == "spacecraft"]:
+                    if a["id"] not in seen:
+                        seen[a["id"]] = {"mass": rng.choice([5.0, 100.0, 500.0, 2000.0, 8000.0]), "visual_cross_section": rng.choice([0.05, 1.0, 10.0, 40.0, 150.0]),
+                                         "reflectivity": rng.choice([0.05, 0.21, 0.6, 1.0])}
+                    a["platform"].update(seen[a["id"]])
         S, step = parse_ts(cfg["time"]["start_timestamp"]), cfg["time"]["physics_step_sec"]
         nsteps = round((parse_ts(cfg["time"]["stop_timestamp"]) - S).total_seconds() / step)
         tids = sorted({t["id"] for e in cfg["engines"] for t in e["targets"]})
         if rng.random() < 0.4:
             for _ in range(rng.randrange(1, 3)):
                 k = rng.randrange(1, nsteps + 1)
-                off = rng.choice([0, 0, -step // 2, -1])
+                off = rng.choice([0, 0, -step // 2, -1, -rng.randrange(1, step), -rng.randrange(1, step)])
                 events.append({"scope": "agent_propagation", "scope_instance_id": rng.choice(tids), "event_type": "impulse",
                                "start_time": fmt_ts(S + dt.timedelta(seconds=k * step + off)), "thrust_vector": [rng.uniform(-1e-3, 1e-3) for _ in range(3)],
                                "thrust_frame": rng.choice(["eci", "ntw"]), "planned": rng.random() < 0.5})
             cfg["events"] = events
         total = step * nsteps
         members = [{"config": cfg, "plan": [{"seconds": total}], "schedule": {"name": "seeded", "seed": rng.randrange(2**31)}, "job_seed": rng.randrange(2**31), "tags": ["base"]}]
-        kinds = rng.sample(["truth-only", "settings", "split", "schedule", "fewer-agents", "settings"], rng.choice([2, 2, 3]))
+        kinds = rng.sample(["truth-only", "settings", "split", "split", "schedule", "fewer-agents", "reorder", "settings"], rng.choice([2, 2, 3]))
         for kind in kinds:
             c2, tags = copy.deepcopy(cfg), [kind]
             plan = [{"seconds": total}]
@@ -126,7 +138,14 @@ class C10(Check):
                 tags += t2
             elif kind == "split" and nsteps >= 2:
                 cuts = sorted(rng.sample(range(1, nsteps), min(nsteps - 1, rng.choice([1, 2]))))
-                plan = [{"seconds": c * step} for c in cuts] + [{"seconds": total}]
+                # a call may ask for a time inside a step (it then stops at the step boundary before it; the next call continues from there)
+                plan = [{"seconds": c * step + (rng.randrange(1, step) if rng.random() < 0.5 else 0)} for c in cuts] + [{"seconds": total}]
+            elif kind == "reorder":
+                # the same agents listed in another order (and the engines in another order)
+                for e in c2["engines"]:
+                    rng.shuffle(e["targets"])
+                    rng.shuffle(e["sensors"])
+                rng.shuffle(c2["engines"])
             elif kind == "schedule":
                 sched = rng.choice([{"name": "lifo"}, {"name": "fifo", "exec_mode": "lazy"}, {"name": "seeded", "seed": rng.randrange(2**31), "exec_mode": "batch", "retry_rate": 0.3}])
             elif kind == "fewer-agents":
